@@ -133,6 +133,46 @@ def classify(mm, model):
     return sig
 
 
+def trace_validation(chk, model, quick, sd):
+    """Code -> spec: long random histories recorded from the real code, validated by TLC against Trace_Module.tla."""
+    ntr, length = (64, 25) if quick else (1500, 30)
+    seeds = [sd * 100000 + i for i in range(ntr)]
+    jobs = [{"model": model, "seeds": ch, "length": length} for ch in C.chunks(seeds, C.NCPU)]
+    outs = C.run_workers("trace_module", jobs, timeout=3000)
+    traces = [t for o in outs for t in o["traces"]]
+    tf = os.path.join(C.WORK, "traces.json")
+    json.dump(traces, open(tf, "w"))
+    res = C.run_tlc("MC_Trace_Module", os.path.join(C.SPEC, "MC_Trace_Module.cfg"), "trace_module", workers=C.NCPU, timeout=2400,
+                    env={"TRACE_FILE": tf})
+    if not res.ok:
+        raise C.MachineryError("trace validation failed to run:\n" + res.out[-2000:])
+    reached = collections.Counter()
+    for line in res.printed("AT"):
+        m = re.match(r'<<"AT", (\d+), (\d+)>>', line)
+        reached[int(m.group(1))] = max(reached[int(m.group(1))], int(m.group(2)))
+    # binding demonstration: one corrupted field of one trace must be rejected at exactly that event
+    bad = json.loads(json.dumps(traces[:1]))
+    k = next(i for i, e in enumerate(bad[0]) if e["ok"] == 1)
+    bad[0][k]["post"]["col"]["radius"][3] += 1
+    tf2 = os.path.join(C.WORK, "traces_corrupt.json")
+    json.dump(bad, open(tf2, "w"))
+    res2 = C.run_tlc("MC_Trace_Module", os.path.join(C.SPEC, "MC_Trace_Module.cfg"), "trace_module2", workers=2, timeout=600,
+                     env={"TRACE_FILE": tf2})
+    got = max([int(re.match(r'<<"AT", (\d+), (\d+)>>', l).group(2)) for l in res2.printed("AT")] + [0])
+    if got != k + 1:
+        raise C.MachineryError("a corrupted trace was matched up to event %d, expected rejection at event %d" % (got, k + 1))
+    nev = 0
+    for t, tr in enumerate(traces, start=1):
+        nev += len(tr)
+        if reached[t] != len(tr) + 1:
+            e = tr[reached[t] - 1]
+            chk.violation({"kind": "trace_rejected", "action": e["op"], "accepted_by_code": bool(e["ok"])},
+                          {"trace_seed": seeds[t - 1], "event_index": reached[t], "event": {k_: e[k_] for k_ in ("op", "a", "x", "view", "ok")},
+                           "err": e.get("err"), "history": [[x["op"], x["a"], x["view"], x["ok"]] for x in tr[:reached[t]]],
+                           "logged_post": e["post"]})
+    return len(traces), nev
+
+
 def main(which):
     chk = C.Check(which, "model_checking")
     quick = C.tier() == "quick"
@@ -249,13 +289,18 @@ def main(which):
                 chk.violation(classify(mm, model), mm)
     if tot["transitions"] < 1000:
         raise C.MachineryError("replayed only %d transitions" % tot["transitions"])
+    if which == "C19":
+        tot["traces"], tot["trace_events"] = trace_validation(chk, model, quick, sd)
     chk.set("states", states)
     chk.set("transitions", trans)
     chk.set("graphs", deep_info)
-    chk.set("traces_validated_against_impl", tot["transitions"] + tot["refusals"])
+    chk.set("traces_validated_against_impl", tot["transitions"] + tot["refusals"] + tot["traces"])
     chk.set("replayed_transitions", tot["transitions"])
     chk.set("refusals_confirmed", tot["refusals"])
     chk.set("integrations_compared", tot["integrations"])
+    if which == "C19":
+        chk.set("recorded_traces_validated_by_tlc", tot["traces"])
+        chk.set("recorded_trace_events", tot["trace_events"])
     if which == "C10":
         chk.set("set_vs_data_set_vs_trainable_routes_compared", tot["routes"])
     chk.set("exhaustive", True)
